@@ -24,6 +24,7 @@ COUNT = {"quick": 6000, "thorough": None}
 BUDGET = {"quick": 45, "thorough": 600}
 CHUNK = 4000
 RULE = (
+    '35% of the nested family run the same step object once more without a nested plan. '
     "n = 1..5 variables; the mask is the binary expansion of (index//4) mod (2^n - 1) + 1, so every non-empty mask of every "
     "n is reached (all-free and single-free included); index%4 selects the family: 0/1 scripted single or multi-step plan, "
     "2 real back-end through the simwrap recorder (slsqp / nelder-mead / differential_evolution, short runs), 3 nested plan "
